@@ -1,3 +1,3 @@
-module github.com/taskctl/taskctl/internal
+module github.com/taskctl/taskctl
 
 go 1.16
